@@ -30,6 +30,7 @@ func init() {
 		Explanation: "Decides structural necessary conditions of convergence, on every path and for every schedule: (1) in the cache, content, version and the event's update flag change together, and an initial load stores content, version 0 and the loaded state only under the not-loaded test of that same entry (PAIR/version-bump); every event is stamped with the pre-update version, applied by its handler, fanned out inside the unlock window and dropped only by the listed discards (CONF/handle-event); (2) cache content and version are written only by cache tasks under the entry's mutex and read under it (CTX/guarded-by); (3) the subscriber applies an event only when it targets its version and advances by one per update (DOM/version-filter); (4) events are processed only with the event gate known open, discarded before load, and reaccess dispatched first (DOM/event-gate); (5) queues are updated in order-preserving forms (FIFO); (6) all mutable subscription state is touched on the connection worker only (CTX/conn); (7) a resource made sendable again must carry a current snapshot (PAIR/snapshot-current: known finding F13); cached model and collection values are never written in place: every container write in the repository is traced to its origin and none originates from Collection.Values / Model.Values (DOM/copy-on-write); a fanned-out ResourceEvent is read-only, no field of it — also one added later — is stored by subscriber-side code (WHO/event-immutable). Not decided: end-to-end equality of the client copy with the service state, Value.Equal, the reset diff (C12), the collector (C02), JSON encodings, legacy-encoding selection. Added after seeding round 7: an entry handed out for subscribing has its messaging-system event subscription on every path (PAIR/cache-count) — without it no event arrives and nothing converges; the cached encodings Model.data/Collection.data are read only by MarshalJSON (WHO/state readers). Added after seeding round 8: a removed cache entry is cleared from every index, the base pointer included (DOM/unregister).",
 		Assumptions: append([]string{"at most one cache worker runs a resource queue at a time (FIFO/CHAN rules) and one output worker per connection (CTX/conn)"}, baseAssumptions...),
 		Rules: []Rule{
+			{Name: "PAIR/rpc-resources", Min: 2, Run: ruleRPCResources, Doc: "events held back for a resource are let through only after the frame that delivers the resource: the client's copy starts from the delivered state"},
 			{Name: "DOM/unregister", Min: 1, Run: ruleUnregister, Doc: "a removed cache entry is cleared from every index: no later subscriber is attached to an orphaned entry that no event or reset refreshes"},
 			{Name: "PAIR/cache-count", Min: 1, Run: rulePairCacheCount, Doc: "an entry handed out for subscribing has its event subscription (no events, no convergence)"},
 			{Name: "LIN/queue-detach", Min: 1, Run: ruleQueueDetach, Doc: "queued events taken off the subscription are processed or re-queued on every path"},
@@ -62,6 +63,7 @@ func init() {
 		Explanation: "Decides: the typestate table of Subscription.state (who may move a subscription into which state); populate → hand the frame over → release on every path (PAIR/rpc-resources); the shapes the collector relies on: ReleaseRPCResources marks sent, descends into every reference and then opens the loading gate; populateResources* count an edge once, skip sent resources and mark ToSend before descending; removeCount's counter effects follow its direct/sent/tryDelete arguments; every disposed subscription leaves the connection's table (DOM/ref-shapes); references are released with the parent's sent-ness as it was while the edge was counted (PROV/sent-flag: known finding F6); the sent-count is raised once per created edge (PAIR/edge-sent-once: known finding F8); a re-sendable resource has a current snapshot and a closed gate (PAIR/snapshot-current: known finding F13); no change on a collection, no add/remove on a model, decoded indexes inside [0,len] (DOM/index-kind-guard); no event before the hand-over (DOM/event-gate); recursion census. NOT decided — and this is the core of the property: correctness of the two-pass reference-count collector tryDelete/Unsend and of the indirectsent arithmetic on arbitrary reference graphs. Added after seeding round 7: the encoding cached for the latest protocol is read by MarshalJSON only, so a legacy connection is never handed bytes in the wrong dialect (WHO/encoding-cache). Added after seeding round 8: collection snapshots held by still-loading subscriptions are never written in place (DOM/copy-on-write).",
 		Assumptions: baseAssumptions,
 		Rules: []Rule{
+			{Name: "PROV/json-text", Min: 4, Run: ruleJSONText, Doc: "marshalers put text into a frame only through json.Marshal (every frame is well-formed)"},
 			{Name: "DOM/copy-on-write", Min: 1, Run: ruleCopyOnWrite, Doc: "snapshots held by still-loading subscriptions are never written in place: no reference appears that is neither subscribed nor sent"},
 			{Name: "WHO/encoding-cache", Min: 2, Run: ruleWho([]whoEntry{
 				{Field: "rescache.Model.data", Writers: w("(*rescache.Model).MarshalJSON", "encoding of the latest protocol, cached once"), Readers: w("(*rescache.Model).MarshalJSON", "legacy clients get soft references rewritten: the cached latest-protocol bytes are not theirs")},
@@ -92,6 +94,7 @@ func init() {
 		Explanation: "Decides: the five queues are updated only in order-preserving forms, including the re-queue of not-yet-processed events before newer ones (FIFO/queues); a worker is woken only on the empty→non-empty transition of a resource queue and never while locks are set (DOM/inch-send), so one worker at a time runs a queue; handleEvent stamps, applies and fans out inside one unlock window with no go statement (CONF/handle-event); Subscriber.Event only enqueues and the continuation of every handler runs on the connection worker (CTX/conn); an applied update advances cache and subscriber versions by exactly one and a stamped event is applied only at its version, hence at most once (PAIR/version-bump, DOM/version-filter); nothing is processed before the hand-over or while the gate is closed, with the in-loop re-test (DOM/event-gate); the bookkeeping of a callback slot (in-flight flag, cached verdict, the slot itself) is finished before the slot's continuations run, so a re-access started from inside a callback is not lost (DOM/drain-reentrancy). Not decided: the capacity countdown of the lock list, delivery by the socket, the 'equivalent derived sequence' exception (C12). Added after seeding round 7: the held-back events of a frame's resources are let through only after the frame that first hands the resources over (PAIR/rpc-resources). Added after seeding round 8: in the edit-script back-tracking, branches that compare the same two LCS-table cells cover every ordering, so the derived sequence is not cut short on a tie (TABLE/lcs-exhaustive; decides the present formulation of the algorithm only).",
 		Assumptions: baseAssumptions,
 		Rules: []Rule{
+			{Name: "PAIR/query-lock", Min: 1, Run: ruleQueryLock, Doc: "one event lock per query request of a query event, released once: later events do not overtake the pending answers"},
 			{Name: "TABLE/remove-run", Min: 0, Run: ruleRemoveRun, Doc: "derived removes of one loop do not use the loop's ascending counter as index (each remove shifts the rest)"},
 			{Name: "TABLE/lcs-exhaustive", Min: 0, Run: ruleLCSExhaustive, Doc: "the edit-script back-tracking leaves no ordering of two table cells to neither branch (derived sequences are not cut short)"},
 			{Name: "PAIR/rpc-resources", Min: 2, Run: ruleRPCResources, Doc: "the resources of a frame are released (their held-back events let through) only after the frame that first hands them to the client"},
@@ -173,6 +176,7 @@ func init() {
 		Explanation: "Decides, for every path and schedule: rpc.HandleRequest performs exactly one Reply per dispatched request, directly or inside a handler continuation, and Reply is called from nowhere else (LIN/reply); every continuation parameter of the handlers and combinators is consumed exactly once on every full path — called, delegated to another linear function, or parked in a pending slot (LIN/continuations); pending callback slots are cleared only after draining, or when the connection itself goes away (LIN/drain: known finding F9 — Dispose drops ready callbacks on a live connection); an answered throttled request always frees its slot, so the access checks queued behind it — and the client requests waiting for them — are not stranded (PAIR/throttle-slot); continuations run on the connection worker (CTX/conn); every outcome of a get response collects the subscribers waiting on it (DOM/answer-waiting); slot bookkeeping is finished before continuations run (DOM/drain-reentrancy). Not decided: liveness (that a parked continuation is eventually run), the readyCallback.loading countdown arithmetic. Added after seeding round 7: a subscription gives its count on a ready callback back only after descending into its references, so the count cannot reach zero twice (PAIR/ready-count).",
 		Assumptions: append([]string{"mq.Client.SendRequest completes exactly once (C18)", "a continuation refused by wsConn.Enqueue because the connection is disposing is an accepted drop"}, baseAssumptions...),
 		Rules: []Rule{
+			{Name: "PROV/json-text", Min: 4, Run: ruleJSONText, Doc: "marshalers put text into a frame only through json.Marshal (a frame that fails to encode answers nothing)"},
 			{Name: "PAIR/ready-count", Min: 1, Run: ruleReadyCount, Doc: "a subscription gives its ready count back only after descending into its references (no double answer)"},
 			{Name: "WHO/handler-callers", Min: 3, Run: ruleHandlerCallers, Doc: "a derived delete goes through handleEvent, which discards it while the initial get is outstanding (the waiting subscribers stay registered and are answered)"},
 			{Name: "DOM/answer-waiting", Min: 1, Run: ruleAnswerWaiting, Doc: "every outcome of a get response collects the subscribers waiting on it"},
@@ -211,6 +215,7 @@ func init() {
 		Explanation: "Decides: getSubscription counts one use on every successful return and none on an error return, errors only when an mq subscription was requested, and with subscribe=true returns only after the entry's mq subscription exists (PAIR/cache-count); callers release the use or hand it to addSubscriber exactly once; a count is released iff a membership was removed and bulk releases equal the set dropped (PAIR/membership); a late or repeated Loaded owns or releases the resource exactly once (PAIR/loaded-handover); eviction re-checks the count under the locks, addCount cancels a pending eviction, removeCount queues the entry exactly at zero, gauges follow the count (DOM/evict); get requests are issued only from addSubscriber / reset (DOM/sub-before-get); a removed entry is cleared from every index it is findable through — base (also for the empty alias), queries, links (DOM/unregister). Not decided: the eviction delay and timers, gauges reading zero at a particular moment. Added after seeding round 7: the connection-side collector marks a held node, or one reached from a kept node, kept — also over an earlier deletion mark — so a shared subscription's cache use is not given back under a live client subscription (DOM/gc-mark). Added after seeding round 8: an entry registered in the cache's index is counted on that very path, because the eviction queue is entered only by releasing a count (PAIR/cache-count).",
 		Assumptions: baseAssumptions,
 		Rules: []Rule{
+			{Name: "CTX/guarded-by", Min: 30, Run: ruleGuardedBy, Doc: "the use count of a cache entry is touched under the entry's mutex by both sides (takes by subscribers, releases by cache tasks): no update is lost"},
 			{Name: "DOM/gc-mark", Min: 1, Run: ruleGCMark, Doc: "the collector marks a held node, or one reached from a kept node, kept — also over an earlier deletion mark: a subscription shared with a kept parent is not disposed"},
 			{Name: "DOM/unregister", Min: 1, Run: ruleUnregister, Doc: "a removed cache entry is cleared from every index (base, queries, links)"},
 			{Name: "PAIR/cache-count", Min: 1, Run: rulePairCacheCount, Doc: "getSubscription / sendRequest / Subscribe use count pairing"},
@@ -245,6 +250,7 @@ func init() {
 		Explanation: "Decides: wsConn.dispose sets the flag and closes the worker channel in one critical section, removes the connection from the cache and from token-reset fan-out, unsubscribes the connection events, disposes every subscription, and leaves the registry (DOM/dispose); Subscription.Dispose releases references and exactly one cache use; Enqueue/Subscribe/Unsubscribe refuse a disposing connection; a late Loaded releases the cache use (PAIR/loaded-handover); late access answers are absorbed (DOM/verdict-store); no call/auth request is issued by a continuation of a disposed connection (CTX/post-dispose); a refused task never strands a throttle slot of other connections (PAIR/throttle-slot); temporary HTTP connections are disposed exactly once on every exit (LIN/temp-conn); sends on the worker channel cannot hit the close (CHAN); teardown takes the connection and cache mutexes in an order that cannot deadlock against the token-reset fan-out (LOCK/order). Not decided: 'no effect on other connections' as a runtime fact beyond the pairing rules of C09. Added after seeding round 7: every service request reads the connection's token and is therefore confined to the connection's worker (CTX/conn), whose queue refuses tasks after the close; a named function that sends a call/auth request hands the dispose test to each closure calling it (CTX/post-dispose). Added after seeding round 8: no function run with the event subscription's mutex held (the tasks of its worker) calls something that takes that mutex again (LOCK/order with held-on-entry states).",
 		Assumptions: baseAssumptions,
 		Rules: []Rule{
+			{Name: "DOM/invalidate", Min: 1, Run: ruleInvalidate, Doc: "a re-access trigger on a disposed subscription starts no access request"},
 			{Name: "CTX/conn", Min: 25, Run: ruleConfinement, Doc: "every service request on a connection's behalf reads its token and is therefore issued from that connection's worker (whose queue refuses tasks after the close) — never straight from a service-answer callback"},
 			{Name: "FIFO/queues", Min: 1, Run: ruleFIFO("rescache.Throttle.queue"), Doc: "a disposed subscription drops no request waiting in the shared throttle (the cache entry it already counted a use on would never be released)"},
 			{Name: "LOCK/order", Min: 2, Run: ruleLockOrder, Doc: "teardown cannot deadlock against the token-reset fan-out: lock order acyclic"},
@@ -300,6 +306,7 @@ func init() {
 		Explanation: "Decides: at all 10 publish/subscribe sites the subject is assembled only from literal prefixes and values whose every provenance leaf (backward over the whole program: parameters through the call graph, fields through all their stores, decoders) is validated by IsValidRID/IsValidRIDPart on the path to its use, trusted (xid, constants) or one of the two service-addressed subjects; the query part of a resource id never reaches a subject (PROV/subject); the recognisers reject control characters, space, DEL, non-ASCII, '*', '>' (and '.', '?' for parts) on every path of a scan step (TABLE/reject-set, constant propagation per character); every subject is validated hence invalid input reaches no service request. Not decided: the recognisers on whole strings (token structure), PathToRID decoding of every byte string. Added after seeding round 7: the resource id is cut into name and query at its first '?', the position up to which the validator checks (TABLE/rid-split). Added after seeding round 8: an HTTP path is cut at '/' before its segments are percent-decoded (TABLE/path-split).",
 		Assumptions: baseAssumptions,
 		Rules: []Rule{
+			{Name: "DOM/validate-before-conn", Min: 2, Run: ruleValidateBeforeConn, Doc: "an invalid HTTP resource id is rejected before the temporary connection (header auth, conn subscription) exists"},
 			{Name: "TABLE/path-split", Min: 4, Run: rulePathSplit, Doc: "an HTTP path is cut at '/' before its segments are percent-decoded (a decoded %2F stays inside its token)"},
 			{Name: "TABLE/rid-split", Min: 1, Run: ruleRIDSplit, Doc: "the id is cut into name and query at its first '?', where the validator stops checking"},
 			{Name: "PROV/cid-taint", Min: 7, Run: ruleCIDTaint, Doc: "every {cid} tag of the resource name is expanded before it reaches a subject"},
@@ -334,6 +341,7 @@ func init() {
 		Explanation: "Decides: in both encoders the expansion path is pushed and popped on every successful path, the cycle test and the error-leaf return precede the push, the recursive descent is guarded by the cycle test and the push, so the expansion terminates on cyclic graphs and later siblings are not cut (PAIR/enc-path); the subscription is handed to the renderer before its resources are released, so the rendering is of the graph as cached at response time and not of one that queued events have already changed (PAIR/rpc-resources); HEAD and GET take the same path and HEAD is tested nowhere else; the two encoders agree on the value kinds (TWIN/encode-value); resource responses set Location from the unexpanded rid (PROV/cid-taint clause of C10); every successful path of both encoders, for collections and models of 0, 1 and 2 elements, emits exactly one well-formed JSON value skeleton, and every non-literal write is JSON by construction — json.Marshal, a json.RawMessage from the decoder, an encoded error (PAIR/emit). Not decided — the core: equality of the rendering with the recursive expansion for every graph; JSON well-formedness beyond the guarded structure; RIDToPath/PathToRID as inverse maps. Added after seeding round 7: cached model/collection values already handed to subscriptions are never written in place, so a pending GET renders a state the cache actually had (DOM/copy-on-write). Added after seeding round 8: no error rewrite distinguishes HEAD from GET (TABLE/method-rewrite).",
 		Assumptions: baseAssumptions,
 		Rules: []Rule{
+			{Name: "TABLE/href-dots", Min: 1, Run: ruleHrefDots, Doc: "the path reader refuses dots, so the href writer leaves none: every id-derived piece passes the . to / replacement"},
 			{Name: "TABLE/method-rewrite", Min: 2, Run: ruleMethodRewrite, Doc: "HEAD is answered exactly as GET: no error rewrite applies to one and not the other"},
 			{Name: "DOM/copy-on-write", Min: 1, Run: ruleCopyOnWrite, Doc: "the content a pending GET renders is the cached state of some moment: cached model/collection values already handed to subscriptions are never written in place"},
 			{Name: "PAIR/loaded-handover", Min: 1, Run: rulePairLoaded, Doc: "a repeated Loaded does not re-read the resource after its ready-callbacks were consumed (a reference still loading would be rendered)"},
@@ -350,6 +358,7 @@ func init() {
 		Explanation: "Decides completely the finite tables: errorStatus maps each code of the property's table (and five other codes) to the stated status, by constant propagation with the code fixed (TABLE/errorStatus); IsDirectResponseStatus and IsValidStatus are true exactly within 300..599, with the nil cases (TABLE/status-interval); MergeHeader never copies the five protected keys, each canonical, appends Set-Cookie and replaces other keys (TABLE/protected); every meta a decoder hands out was canonicalised (DOM/canonicalize); on a direct-response status no further service request is issued and no data is handed out (DOM/gates); the origin check precedes header auth and every service request (DOM/origin); the error-to-status table is closed: every code errorStatus tells apart, and any other, maps to the listed status or 400 (TABLE/errorStatus). Not decided: matchesOrigins for all strings, net/http and gorilla behaviour. Added after seeding round 7: an error is replaced by methodNotAllowed only on paths that excluded GET, HEAD and POST, so methodNotFound keeps its 404 there (TABLE/method-rewrite). Added after seeding round 8: merging two service metas takes the later status on every path (DOM/meta-merge).",
 		Assumptions: baseAssumptions,
 		Rules: []Rule{
+			{Name: "DOM/auth-meta-kept", Min: 1, Run: ruleAuthMetaKept, Doc: "the header-auth answer's meta (headers, cookies) is kept whenever the request goes on"},
 			{Name: "DOM/meta-merge", Min: 1, Run: ruleMetaMerge, Doc: "merging two service metas hands the later status over on every path"},
 			{Name: "TABLE/method-rewrite", Min: 2, Run: ruleMethodRewrite, Doc: "an error is replaced by methodNotAllowed only for request methods other than GET, HEAD, POST (methodNotFound keeps its 404 there)"},
 			{Name: "TABLE/errorStatus", Min: 7, Run: ruleErrorStatus, Doc: "error code to status table"},
